@@ -1,5 +1,10 @@
 """C19 - buffered packets are kept per stream in FIFO order with correct wildcard lookup.
 
+Behaviour of put / get / clear / clear_all / find (exact and the three wildcard patterns) / find_allow_zeros / len / in:
+each method body is interpreted abstractly (sa/absstore.py: finite domain of store shapes for one distinguished pair, one
+representative element per dict iteration, unknown predicates split the state) and the resulting abstract transitions are
+compared with those of the reference model (sa/storespec.py).  That is independent of how the bodies are spelled.
+
 Decided: two-level key discipline (outer key = local id, inner key = remote id) on every subscript, membership
 test, deletion, dict display and comprehension over the store's dict, and on every pair the look-ups return
 (remote, local); every non-None result of find() is governed by "the queue at that key is not empty"; wildcard
@@ -185,15 +190,19 @@ def check(ctx, R):
         _walk_stmts(ctx, sk, f.node.body, env)
         total += sk.checked
     R.count("KIND-store", total, 25)
-    _find(ctx, R, cls)
     _queue_class(ctx, R, cls)
-    _get(ctx, R, cls)
-    _clear(ctx, R, cls)
-    _len(ctx, R, cls)
-    _zeros(ctx, R, cls)
-    _contains(ctx, R, cls)
+    # behaviour of each operation: abstract interpretation of its body over the shapes of the store (sa/absstore.py) against
+    # the reference model's transitions (sa/storespec.py)
+    from .. import storespec
+    R.attempt(storespec.find_spec, ctx, R, cls, "FIND")
+    R.attempt(storespec.get_spec, ctx, R, cls, "GET")
+    R.attempt(storespec.clear_spec, ctx, R, cls, "CLEAR")
+    R.attempt(storespec.clear_all_spec, ctx, R, cls, "CLEAR")
+    R.attempt(storespec.len_spec, ctx, R, cls, "LEN")
+    R.attempt(storespec.zeros_spec, ctx, R, cls, "ZEROS")
+    R.attempt(storespec.contains_spec, ctx, R, cls, "CONTAINS")
+    R.attempt(storespec.put_spec, ctx, R, cls, "PUT", clse_drop="allowed")
     store_lifetime_rules(ctx, R)
-    _put_early_returns(ctx, R, cls)
     R.assume("queue.Queue / asyncio.Queue are FIFO; dict iteration visits every item")
     R.undecided("equivalence with a reference model over operation histories; only key discipline, emptiness guards and FIFO-ness are static")
 
